@@ -120,15 +120,16 @@ Init0(inst) == [visited |-> {}, cur |-> 0, t |-> 0, len |-> 0, ulh |-> 0, ubh |-
 
 Arrival(inst, s, j) == s.t + Travel(inst, s.cur, j)               \* current_time + d_ij / speed
 
-\* QUIRK get_action_mask `can_reach_customer = arrival_time < late_tw`: STRICT, whereas
-\* check_solution_validity (and the problem) accept arrival = late
-CanReachCustomer(inst, s, j) == Arrival(inst, s, j) < inst.late[j]
+\* get_action_mask `can_reach_customer = arrival_time <= late_tw` (since the fix "MTVRP time-window mask offers
+\* arrivals exactly at the window end"; STRICT before, whereas checker and problem accept arrival = late)
+CanReachCustomer(inst, s, j) == Arrival(inst, s, j) <= inst.late[j]
 
-\* QUIRK `(max(arrival, early) + service + d_j0) * ~open_route < late_tw[..., 0:1]`: STRICT again;
-\* an open route multiplies the left side by 0, i.e. the test degenerates to 0 < H
+\* `(max(arrival, early) + service + d_j0) * ~open_route <= late_tw[..., 0:1]` (non-strict since the fix "MTVRP
+\* time-window mask offers arrivals exactly at the window end"; both sites were strict before);
+\* an open route multiplies the left side by 0, i.e. the test degenerates to 0 <= H
 CanReachDepot(inst, s, j) ==
   (IF inst.open THEN 0
-   ELSE Max(Arrival(inst, s, j), inst.early[j]) + inst.svc[j] + Travel(inst, j, 0)) < inst.H
+   ELSE Max(Arrival(inst, s, j), inst.early[j]) + inst.svc[j] + Travel(inst, j, 0)) <= inst.H
 
 \* `current_route_length + d_ij + d_j0 * ~open_route > distance_limit` (non-strict acceptance;
 \* the limit is on DISTANCE: speed plays no role here)
